@@ -18,6 +18,12 @@ of Crypto.Protocol.DH.key_agreement against the affine reference arithmetic of m
 * key_agreement: all 16 subsets of {static_priv, static_pub, eph_priv, eph_pub} from both parties' view on the five
   NIST curves and X25519/X448, neutral results (public key = neutral element / every low-order u and its aliases),
   edge-of-encoding public values, RFC 7748 5.2 iterations (1 and 1000).
+
+The thorough tier adds (every addition is a complete enumeration, described in the evidence under "thorough_extensions"):
+larger point / u / scalar / blinding-seed alphabets, structured scalar sweeps (every single non-zero window digit in every
+window position for the window sizes of the C code - i.e. every entry of every pre-computed generator table of P-256/384/521 -
+and 2^k-1, 2^k, 2^k+1 for every k up to bits+72) with an addition-chain reference, depth-4 histories on every curve, further
+history starts, more key sets / key-object routes / own keys / public values for key_agreement, 5000 RFC 7748 iterations.
 """
 from ..common import Acc, seeded_int
 from ..ref import ec as R
@@ -29,13 +35,17 @@ from . import _c06_xdh as X
 LEVEL = "exploration"
 RULE = ("complete enumeration of the stated alphabets: per curve all ordered pairs of the point alphabet, all (point, scalar, "
         "operator form, blinding seed) tuples, all in-place operator histories up to the depth bound, all 16 key_agreement "
-        "argument subsets x key sets for both parties; a case is distinct by (curve, operand recipes, scalar, seed, history); "
+        "argument subsets x key sets (x key-object routes) for both parties; thorough tier in addition: all scalars of the structured "
+        "sweep families (every window digit in every window position, 2^k-1 / 2^k / 2^k+1 for every k) x sweep points x blinding "
+        "seeds; a case is distinct by (curve, operand recipes, scalar, seed, history); "
         "distinct_nontrivial counts the distinct behaviour classes observed (part, curve, operator, class of the operand(s) "
         "[neutral / G / order-2 / low-order / other], scalar range, class of the result, agreement with the reference)")
 BUDGET = {"quick": 200, "thorough": 2400}
 
 ALPHA = {}      # cname -> point alphabet (filled in the parent before forking)
 XALPHA = {}
+SCALAR_PARTS = {"p384": 2, "p521": 3, "ed448": 2, "p256": 2}    # thorough tier: scalar shards of one point are split (balance)
+SWEEP_CHUNK = 240                                               # scalars per sweep shard
 
 
 def _seeds(cname, quick):
@@ -44,7 +54,37 @@ def _seeds(cname, quick):
     s = 1 + seeded_int("c06/blind/" + cname, 64) % ((1 << 64) - 1)
     if quick:
         return [s, 0] + ([0xFFFFFFFFFFFFFFFF] if cname == "p256" else [])
-    return [s, 0, 1, 0xFFFFFFFF, 0xFFFFFFFFFFFFFFFF]
+    # src/ec_ws.c ec_ws_scalar: (uint32_t)seed is the scalar-blinding factor R (scalar + R*n), seed the source of the projective
+    # blinding factor, seed+1 / seed+2 the seeds of the scrambled tables.  0x100000000: blinded path with R = 0;
+    # 0xFFFFFFFFFFFFFFFE / ..FF: seed+2 / seed+1 wrap to 0; 0x80000000, 0xFFFFFFFF00000001, 2^63: sign / word boundaries of R and seed
+    return [s, 0, 1, 0xFFFFFFFF, 0xFFFFFFFFFFFFFFFF,
+            0x100000000, 0xFFFFFFFFFFFFFFFE, 0x80000000, 0xFFFFFFFF00000001, 0x8000000000000000]
+
+
+_PAIR_ONLY = frozenset(["%dG" % m for m in range(4, 18)] + ["-3G", "dbl(dbl(G))", "-(dbl(G))", "2W0", "dbl(W0)", "-W1", "W1+W2", "W6", "W7"])
+
+
+def _pair_only(label):
+    """thorough-tier point-alphabet entries that take part in the pair / unary checks only (their value class and representation are
+    already present in the scalar grid through other entries)"""
+    return label in _PAIR_ONLY
+
+
+def _sweep_seeds(cname):
+    return _seeds(cname, False)[:1] if cname not in H.WEIER else [_seeds(cname, False)[0], 0, 0xFFFFFFFFFFFFFFFF]
+
+
+def sweep_points(cname):
+    """point alphabet entries the structured scalar sweeps run on: the shared generator object and a fresh EccPoint(Gx,Gy) (both take
+    the pre-computed-table path on P-256/384/521), G with z != 1 and a seeded point (generic path), a mixed-order point (Edwards)"""
+    labs = ["G", "G'", "2G+(-G)", "W0"] + (["G+T%d" % R.CURVES[cname].cofactor] if cname in H.EDW else [])
+    return [[a for a in ALPHA[cname] if a[0] == l][0] for l in labs]
+
+
+def xsweep_points(cname):
+    A = {a[0]: a for a in XALPHA[cname]}
+    tw = [a for a in XALPHA[cname] if a[2] == "twist"][0]
+    return [A["G"], A["G'"], A["W0"], tw, A["low(1)"], A["p+Gu"]]
 
 
 def worker(shards):
@@ -64,18 +104,31 @@ def worker(shards):
                 P.check_pair(cname, A[i][1], b[1], acc, size=1000 + 100 * max(i, j) + min(i, j))
                 acc.count("pairs")
         elif kind == "scalar":
-            _, cname, i, reduced, quick = sh
-            S = H.scalar_alphabet(cname, reduced)
+            cname, i, reduced, quick = sh[1:5]
+            part, nparts = sh[5:7] if len(sh) > 5 else (0, 1)
+            S = H.scalar_alphabet(cname, reduced, deep=not quick)
+            if not quick:
+                H.use_doubling_table(cname, ALPHA[cname][i][3])
             for j, (kl, k) in enumerate(S):
+                if j % nparts != part:
+                    continue
                 for si, seed in enumerate(_seeds(cname, quick)):
                     P.check_scalar(cname, ALPHA[cname][i][1], k, seed, acc, size=100000 + (100 * j + i) * 10 + si)
                     acc.count("scalar_cases")
+        elif kind == "sweep":
+            _, cname, pi, fam, w, lo, hi = sh
+            P.check_sweep(cname, sweep_points(cname)[pi][1], fam, w, lo, hi, _sweep_seeds(cname), acc, pidx=pi)
+        elif kind == "xsweep":
+            _, cname, pi, fam, w, lo, hi = sh
+            X.check_xsweep(cname, xsweep_points(cname)[pi][1], fam, w, lo, hi, acc, pidx=pi)
         elif kind == "hist":
             _, cname, si, depth, reduced, first = sh
             A = ALPHA[cname]
             ops = P.hist_ops(cname, A, reduced)
             if first < len(ops):
                 P.explore_histories(cname, hist_starts(cname)[si], ops, depth, first, _byl(cname, "W2"), acc, sbase=si)
+                if depth >= 4:
+                    acc.count("hist4/" + cname)
         elif kind == "xunary":
             for i, a in enumerate(XALPHA[sh[1]]):
                 X.check_xunary(sh[1], a[1], acc, size=i)
@@ -86,8 +139,9 @@ def worker(shards):
                 X.check_xpair(cname, A[i][1], b[1], acc, size=1000 + 100 * max(i, j) + min(i, j))
                 acc.count("pairs")
         elif kind == "xscalar":
-            _, cname, i, reduced = sh
-            for j, (kl, k) in enumerate(H.scalar_alphabet(cname, reduced)):
+            cname, i, reduced = sh[1:4]
+            deep = len(sh) > 4 and sh[4]
+            for j, (kl, k) in enumerate(H.scalar_alphabet(cname, reduced, deep=deep)):
                 X.check_xscalar(cname, XALPHA[cname][i][1], k, acc, size=100000 + 100 * j + i)
                 acc.count("scalar_cases")
         elif kind == "xhist":
@@ -96,11 +150,11 @@ def worker(shards):
             if first < len(S):
                 X.explore_xhistories(cname, xhist_starts(cname)[si], S, depth, first, acc, sbase=si)
         elif kind == "ka":
-            X.check_ka(sh[1], sh[2], sh[3], acc)
+            X.check_ka(sh[1], sh[2], sh[3], acc, route=sh[4] if len(sh) > 4 else "construct")
         elif kind == "kaneutral":
-            X.check_ka_neutral(sh[1], sh[2], acc)
+            X.check_ka_neutral(sh[1], sh[2], acc, nks=sh[3] if len(sh) > 3 else 2)
         elif kind == "xdhspecial":
-            X.check_xdh_special(sh[1], sh[2], acc)
+            X.check_xdh_special(sh[1], sh[2], acc, deep=len(sh) > 3 and sh[3])
         elif kind == "rfciter":
             X.check_rfc7748_iter(sh[1], sh[2], acc)
         elif kind == "cross":
@@ -114,30 +168,65 @@ def worker(shards):
     return acc
 
 
+_UNIT = {"p192": 1.0, "p224": 1.2, "p256": 1.5, "p384": 3.0, "p521": 4.5, "ed25519": 1.3, "ed448": 4.5, "curve25519": 1.0, "curve448": 4.0}
+
+
+def _weight(s):
+    """rough relative cost of a thorough-tier shard (only used to start the heaviest shards first)"""
+    kind = s[0]
+    u = _UNIT.get(s[1], 1.0) if len(s) > 1 else 1.0
+    if kind == "selfcheck":
+        return 1e9
+    if kind == "rfciter":
+        return 2.2 * u * s[2]
+    if kind == "hist":
+        nops = len(P.hist_ops(s[1], ALPHA[s[1]], s[4]))
+        return 1.4 * u * sum(nops ** j for j in range(s[3]))
+    if kind == "xhist":
+        nops = len(X.xhist_scalars(s[1], s[4]))
+        return 3.0 * u * sum(nops ** j for j in range(s[3]))
+    if kind == "scalar":
+        return u * len(H.scalar_alphabet(s[1], s[3], deep=True)) / s[6] * (15 + 3 * len(_seeds(s[1], False)))
+    if kind == "xscalar":
+        return 16.0 * u * len(H.scalar_alphabet(s[1], s[3], deep=True))
+    if kind == "sweep":
+        return 1.6 * u * SWEEP_CHUNK * len(_sweep_seeds(s[1]))
+    if kind == "xsweep":
+        return 1.6 * u * SWEEP_CHUNK
+    return 10.0 * u
+
+
 def _byl(cname, label):
     return [a for a in ALPHA[cname] if a[0] == label][0][1]
 
 
 def hist_starts(cname):
-    return [_byl(cname, "G'"), ("O",), _byl(cname, "W0")]
+    """0..2: both tiers; 3..: thorough tier (G with z != 1; Edwards: a point of order h and a mixed-order point)"""
+    st = [_byl(cname, "G'"), ("O",), _byl(cname, "W0"), _byl(cname, "2G+(-G)")]
+    if cname in H.EDW:
+        h = R.CURVES[cname].cofactor
+        st += [_byl(cname, "T%d[1]" % h), _byl(cname, "G+T%d" % h)]
+    return st
 
 
 def xhist_starts(cname):
+    """0..3: both tiers; 4, 5: thorough tier (a non-canonical u, the low-order u = p-1)"""
     A = {a[0]: a[1] for a in XALPHA[cname]}
     tw = [a[1] for a in XALPHA[cname] if a[2] == "twist"][0]
-    return [A["G'"], A["low(1)"], A["W0"], tw]
+    return [A["G'"], A["low(1)"], A["W0"], tw, A["p+Gu"], A["low(p-1)"]]
 
 
 def run(ctx):
     q = ctx.quick
+    deep = not q
     R.validate_curves()
     if not K.have_seam():
         ctx.acc.error("seam Crypto.PublicKey._point.getrandbits not found")
         return
     for cname in H.WEIER + H.EDW:
-        ALPHA[cname] = K.point_alphabet(cname, ctx.acc.observe)
+        ALPHA[cname] = K.point_alphabet(cname, ctx.acc.observe, deep=deep)
     for cname in H.MONT:
-        XALPHA[cname] = K.xpoint_alphabet(cname)
+        XALPHA[cname] = K.xpoint_alphabet(cname, deep=deep)
     full = ("p256", "ed25519", "curve25519")
     # the reference self-tests (6-8 s: RFC vectors, 1000 X25519 iterations, helper cross-checks) run as the first shard, in
     # parallel with the exploration; a failure is a harness error (exit 3)
@@ -146,16 +235,28 @@ def run(ctx):
     for cname in H.WEIER + H.EDW:
         sh.append([("unary", cname)])
         n = len(ALPHA[cname])
+        nparts = 1 if q else SCALAR_PARTS.get(cname, 1)
         for i in range(n):
             sh.append([("pair", cname, i)])
-            sh.append([("scalar", cname, i, q and cname not in full, q)])
+            if q:
+                sh.append([("scalar", cname, i, cname not in full, True)])
+            elif not _pair_only(ALPHA[cname][i][0]):
+                for part in range(nparts):
+                    sh.append([("scalar", cname, i, False, False, part, nparts)])
+    sweep_expected = 0
+    if deep:
+        for cname in H.WEIER + H.EDW:
+            for pi in range(len(sweep_points(cname))):
+                for fam, w, lo, hi in H.sweep_chunks(cname, SWEEP_CHUNK):
+                    sh.append([("sweep", cname, pi, fam, w, lo, hi)])
+            sweep_expected += H.sweep_count(cname) * len(sweep_points(cname)) * len(_sweep_seeds(cname))
     hist_plan = {}
     for cname in H.WEIER + H.EDW:
         if q:
             plans = [(3, True, (0,))] if cname in full else []
             plans.append((2, False, (0, 1, 2)))
         else:
-            plans = [(3, False, (0, 1, 2))] + ([(4, True, (0,))] if cname in full else [])
+            plans = [(3, False, tuple(range(len(hist_starts(cname))))), (4, True, (0,))]
         hist_plan[cname] = plans
         for depth, reduced, starts in plans:
             nops = len(P.hist_ops(cname, ALPHA[cname], reduced))
@@ -163,34 +264,46 @@ def run(ctx):
                 for first in range(nops):
                     sh.append([("hist", cname, si, depth, reduced, first)])
     # --- EccXPoint ---
-    xdepth = 2 if q else 3
+    xplans = [(2, False, (0, 1, 2, 3))] if q else [(3, False, (0, 1, 2, 3, 4, 5)), (4, True, (0, 1, 2, 3))]
     for cname in H.MONT:
         red = q and cname not in full
         sh.append([("xunary", cname)])
         for i in range(len(XALPHA[cname])):
             sh.append([("xpair", cname, i)])
-            sh.append([("xscalar", cname, i, red)])
-        for si in range(4):
-            for first in range(len(X.xhist_scalars(cname, False))):
-                sh.append([("xhist", cname, si, xdepth, False, first)])
+            sh.append([("xscalar", cname, i, red) + ((True,) if deep else ())])
+        for xdepth, xred, xstarts in xplans:
+            for si in xstarts:
+                for first in range(len(X.xhist_scalars(cname, xred))):
+                    sh.append([("xhist", cname, si, xdepth, xred, first)])
+        if deep:
+            for pi in range(len(xsweep_points(cname))):
+                for fam, w, lo, hi in H.sweep_chunks(cname, SWEEP_CHUNK):
+                    sh.append([("xsweep", cname, pi, fam, w, lo, hi)])
+            sweep_expected += H.sweep_count(cname) * len(xsweep_points(cname))
     # --- key agreement ---
-    nsets = 3 if q else 6
+    nsets = 3 if q else 14
+    routes = X.KA_ROUTES[:1] if q else X.KA_ROUTES
+    nks = 2 if q else 6
+    iters = (1, 1000) if q else (1, 1000, 5000)
     for cname in X.KA_CURVES:
         for ksi in range(nsets):
-            sh.append([("ka", cname, ksi, nsets)])
+            for route in routes:
+                sh.append([("ka", cname, ksi, nsets) + ((route,) if deep else ())])
         if cname in H.MONT:
             for u in X.neutral_us(cname):
-                sh.append([("kaneutral", cname, u)])
-            for u in X.special_us(cname):
-                sh.append([("xdhspecial", cname, u)])
-            for it in (1, 1000):
+                sh.append([("kaneutral", cname, u) + ((nks,) if deep else ())])
+            for u in X.special_us(cname, deep):
+                sh.append([("xdhspecial", cname, u) + ((True,) if deep else ())])
+            for it in iters:
                 sh.append([("rfciter", cname, it)])
         else:
-            sh.append([("kaneutral", cname, None)])
+            sh.append([("kaneutral", cname, None) + ((nks,) if deep else ())])
     sh.append([("cross",)])
     # expensive shards first
     cost = {"selfcheck": -1, "rfciter": 0, "hist": 1, "xhist": 1, "scalar": 2, "xscalar": 3}
     sh.sort(key=lambda s: (cost.get(s[0][0], 5), -R.CURVES[s[0][1]].bits if len(s[0]) > 1 and s[0][1] in R.CURVES else 0))
+    if deep:
+        sh.sort(key=lambda s: -_weight(s[0]))       # stable: ties keep the order above
     ctx.pmap(worker, sh)
 
     a = ctx.acc
@@ -231,6 +344,25 @@ def run(ctx):
         ctx.require(any(c[0] == cname for c in a.distinct.get("ka_neutral", ())) or
                     any("neutral-result" in k and cname in k for k in a.viol), "%s: no neutral-result exchange was refused" % cname)
     ctx.require(("cross", False) in cl and ("cross-add", "ValueError") in cl, "cross-curve comparison not executed")
+    if deep:
+        sw = a.distinct.get("sweep", set())
+        ctx.require(a.n.get("sweep_cases", 0) == sweep_expected,
+                    "structured scalar sweeps: %d cases executed, %d expected" % (a.n.get("sweep_cases", 0), sweep_expected))
+        for cname in R.CURVES:
+            for fam, w, steps in H.sweep_families(cname):
+                ctx.require((cname, fam, w, True) in sw and (cname, fam, w, False) in sw,
+                            "%s: sweep family %s/%d did not run on the shared generator object and on other points" % (cname, fam, w))
+        for cname, (w, ntab) in H.GTABLE.items():
+            per = len(sweep_points(cname)) if cname not in H.MONT else len(xsweep_points(cname))
+            ctx.require(a.n.get("sweep_scalars/%s/digit%d" % (cname, w), 0) >= per * ntab * ((1 << w) - 1),
+                        "%s: not every entry of the %d pre-computed generator tables was addressed" % (cname, ntab))
+        for cname in X.KA_CURVES:
+            for route in X.KA_ROUTES:
+                ctx.require((cname, route) in a.distinct.get("ka_routes", ()), "%s: key route %s not exercised" % (cname, route))
+        for cname in H.MONT:
+            ctx.require(("rfciter", cname, 5000) in cl or any(k.startswith("C06/rfc7748") for k in a.viol), "%s: 5000 RFC 7748 iterations did not finish" % cname)
+        for cname in H.WEIER + H.EDW:
+            ctx.require(any(c[0] == "hist" and c[1] == cname for c in cl) and a.n.get("hist4/" + cname, 0) > 0, "%s: no depth-4 history executed" % cname)
 
     ctx.coverage_extra.update({
         "evaluations": a.n.get("evaluations", 0),
@@ -242,15 +374,55 @@ def run(ctx):
         "history_traces": a.n.get("traces", 0), "distinct_reference_points_reached_by_histories": len(a.distinct.get("hist_refstates", ())),
         "point_alphabet": {c: [x[0] for x in ALPHA[c]] for c in ALPHA},
         "xpoint_alphabet": {c: [x[0] for x in XALPHA[c]] for c in XALPHA},
-        "scalar_alphabet": {c: [l for l, _ in H.scalar_alphabet(c, q and c not in full)] for c in R.CURVES},
+        "scalar_alphabet": {c: [l for l, _ in H.scalar_alphabet(c, q and c not in full, deep=deep)] for c in R.CURVES},
+        "scalar_operator_forms": ["P*k", "k*P", "P*=k", "P*Integer(k)"],
         "blinding_seeds": {c: ["0x%x" % s for s in _seeds(c, q)] for c in H.WEIER},
         "history_plan(depth,reduced alphabet,start indices)": {c: [list(map(str, p)) for p in v] for c, v in hist_plan.items()},
         "history_alphabet_sizes": {c: {"full": len(P.hist_ops(c, ALPHA[c], False)), "reduced": len(P.hist_ops(c, ALPHA[c], True))} for c in ALPHA},
-        "xhistory": {"depth": xdepth, "scalars": [l for l, _ in X.xhist_scalars("curve25519")], "starts": 4},
-        "key_agreement": {"curves": list(X.KA_CURVES), "key_sets": nsets, "subsets": 16, "views": 2,
-                          "neutral_u_values": {c: len(X.neutral_us(c)) for c in H.MONT},
-                          "special_u_values": {c: len(X.special_us(c)) for c in H.MONT}, "rfc7748_iterations": [1, 1000]},
+        "xhistory": {"plans(depth,reduced alphabet,start indices)": [list(map(str, p)) for p in xplans],
+                     "scalars": {"full": [l for l, _ in X.xhist_scalars("curve25519")], "reduced": [l for l, _ in X.xhist_scalars("curve25519", True)]},
+                     "starts": [K.rstr(H.MONT[0], r) for r in xhist_starts(H.MONT[0])]},
+        "key_agreement": {"curves": list(X.KA_CURVES), "key_sets": nsets, "key_object_routes": list(routes), "subsets": 16, "views": 2,
+                          "neutral_u_values": {c: len(X.neutral_us(c)) for c in H.MONT}, "own_key_sets_for_neutral_results": nks,
+                          "special_u_values": {c: len(X.special_us(c, deep)) for c in H.MONT},
+                          "private_strings_per_special_u": 14 if deep else 4, "rfc7748_iterations": list(iters)},
     })
+    if deep:
+        ctx.coverage_extra["thorough_extensions"] = {
+            "structured_scalar_sweeps": {
+                "families": "digit/w: d*2^(w*i) for EVERY window position i < (bits+8)/w+1 and EVERY digit 0 < d < 2^w, w = 4 (run-time window of "
+                            "src/ec_ws.c, nibbles of the ladders) and w = window size of the pre-computed generator tables (P-256: 5 bits x 52 "
+                            "tables, P-384: 5 x 77, P-521: 4 x 131; one position beyond the tables included); pow2: 2^k-1, 2^k, 2^k+1 for EVERY "
+                            "k <= bits+72 (every bit / byte / 64-bit-word length of the scalar)",
+                "steps(family,w,steps)": {c: [list(f) for f in H.sweep_families(c)] for c in R.CURVES},
+                "scalars_per_point": {c: H.sweep_count(c) for c in R.CURVES},
+                "points": dict([(c, [x[0] for x in sweep_points(c)]) for c in ALPHA] + [(c, [x[0] for x in xsweep_points(c)]) for c in XALPHA]),
+                "blinding_seeds": {c: ["0x%x" % s for s in _sweep_seeds(c)] for c in H.WEIER},
+                "operator_forms": "P*k and P*=k (P*k and k*P on the shared generator object, which must not be mutated)",
+                "reference": "addition chain using only the affine group law mc.ref.ec.add (Montgomery: exact affine law on curve / twist); "
+                             "the last value of every shard is cross-checked against double-and-add",
+                "cases(point,scalar,seed)": a.n.get("sweep_cases", 0),
+            },
+            "points_in_pairs_and_unary_checks_only": sorted(_PAIR_ONLY),
+            "point_alphabet": "per curve +14 small multiples 4G..17G (every entry of the 4-bit run-time window and the next two), one value in several "
+                              "projective representations, opposites with z != 1, doubles, three more seeded points, (0,-sqrt(b)); Edwards: "
+                              "low-order points with z != 1, G+T2, -(G+Th), n*(G+Th), h*(W0+T2); ALL ordered pairs; ALL (point, scalar, form, seed) except for "
+                              "the entries listed under points_in_pairs_and_unary_checks_only",
+            "scalar_alphabet": "2^(64j)-1, 2^(64j), 2^(64j)+1 for every word boundary j <= words+1; each 4-bit digit 1..15 repeated over the whole "
+                               "width; n-2, n+2, (n-1)/2, (n+1)/2, 2n-1, 2n+1, 3n, (2^32-1)n, 2^32 n, 2^32 n+1, 2^64 n-1, h*n-1, 2hn, n+h; "
+                               "2^2048-1, 2^2048, 2^4096+n",
+            "blinding_seeds": "10 instead of 5: + 2^32 (blinded path with scalar-blinding factor 0), 2^64-2 (seed+2 wraps to 0), 2^31, "
+                              "0xFFFFFFFF00000001, 2^63",
+            "histories": "depth 3 over the full operator alphabet from every start (new starts: G with z != 1; Edwards: a point of order h, a "
+                         "mixed-order point); depth 4 over the reduced alphabet from G' on EVERY curve (before: only P-256 and Ed25519)",
+            "history_starts": {c: [K.rstr(c, r) for r in hist_starts(c)] for c in ALPHA},
+            "xpoint_alphabet": "every u from 2 to 32, p-5..p+5, neighbours of 2^(bits-1), 2^255 and of the top of the encoding, -Gu, (p+-1)/2, three "
+                               "more seeded points, six more points reached by arithmetic",
+            "xhistories": "depth 3 full alphabet from 6 starts (new: non-canonical p+Gu, low-order p-1); depth 4 over the reduced alphabet from 4 starts",
+            "key_agreement": "14 key sets instead of 6 (clamping-equivalent strings, extreme and opposite private keys, bit patterns, one key in two "
+                             "roles) x 3 key-object routes (construct / reference coordinates or raw import / DER + compressed SEC1 import); neutral "
+                             "results with 6 own key sets; special public values x 14 private strings; 5000 RFC 7748 iterations",
+        }
     ctx.assume("coordinates and scalars outside the stated alphabets are not covered (value alphabet: boundary values plus "
                "SHAKE256(VERIF_SEED)-derived multiples/scalars)")
     ctx.assume("reference k*P on Weierstrass/Edwards curves is computed as (k mod h*n)*P (validated unreduced on P-192 and Ed25519 at "
@@ -259,7 +431,8 @@ def run(ctx):
                "C entry points are not called directly")
     ctx.assume("the 64-bit blinding seed is owned through the module attribute Crypto.PublicKey._point.getrandbits; only the listed "
                "seed values are explored (0 selects the unblinded path)")
-    ctx.assume("RFC 7748 5.2: 1 and 1000 iterations; 1,000,000 iterations are out of budget")
+    ctx.assume("RFC 7748 5.2: 1 and 1000 iterations (published constants)%s; 1,000,000 iterations are out of budget"
+               % ("" if q else " and 5000 iterations (every step against the reference; no published constant)"))
     ctx.assume("Weierstrass coordinates >= p and the acceptance of invalid points by constructors belong to C05 and are not judged here; "
                "key_agreement with Ed25519/Ed448 keys is outside the property text")
     ctx.assume("comparison of points of different curve families (e.g. Ed25519 vs P-256) is not executed: the C comparison function "
@@ -280,7 +453,7 @@ def replay(case, acc):
         P.run_history(c, t(case["start"]), [t(o) for o in case["ops"]], acc, final=t(case["final"]) if case["final"] else None,
                       check_all=False)
     elif p == "xscalar":
-        X.check_xscalar(c, t(case["P"]), case["k"], acc)
+        X.check_xscalar(c, t(case["P"]), case["k"], acc, ops=tuple(case["ops"]) if case.get("ops") else X.XOPS)
     elif p == "xpair":
         X.check_xpair(c, t(case["P"]), t(case["Q"]), acc)
     elif p == "xunary":
@@ -288,11 +461,11 @@ def replay(case, acc):
     elif p == "xhist":
         X.run_xhistory(c, t(case["start"]), case["ks"], acc)
     elif p == "ka":
-        X.check_ka(c, case["keyset"], case["nsets"], acc)
+        X.check_ka(c, case["keyset"], case["nsets"], acc, route=case.get("route", "construct"))
     elif p == "kaneutral":
-        X.check_ka_neutral(c, case["u"], acc)
+        X.check_ka_neutral(c, case["u"], acc, nks=case.get("nks", 2))
     elif p == "xdhspecial":
-        X.check_xdh_special(c, case["u"], acc)
+        X.check_xdh_special(c, case["u"], acc, deep=bool(case.get("deep")))
     elif p == "rfciter":
         X.check_rfc7748_iter(c, case["iters"], acc)
     elif p == "cross":
